@@ -139,6 +139,26 @@ theorem moves_lt_minute (r : Round) (pr : Prayer) (M S : ℤ) (hr : r ≠ .None)
 theorem carry_midnight : clock (23 * 60 + 59 + 1) 0 = ⟨0, 0, 0⟩ ∧ clock (7 * 60 + 59 + 1) 0 = ⟨8, 0, 0⟩ := by
   decide
 
+/-- **validity and the extreme flag are unaffected by rounding**, for every scalar type: an
+    invalid entry stays invalid, a valid one keeps exactly its flag (the conversion only produces
+    the clock reading) -/
+theorem rounding_keeps_validity_and_flag {α : Type} [Add α] [Sub α] [Mul α] [Div α] [Neg α] [OfScientific α] [Sc α]
+    (p : Params α) (pr : Prayer) (o : Option (PH α)) (r : Option PT) (h : optTime p pr o = .ok r) :
+    (o = none ↔ r = none) ∧ (∀ ph t, o = some ph → r = some t → t.extreme = ph.extreme) := by
+  cases o with
+  | none => simp [optTime] at h; subst h; simp
+  | some ph =>
+    simp only [optTime, toPrayerTime] at h
+    split at h
+    · simp at h
+    · rename_i t ht
+      split at ht
+      · simp at ht
+      · simp only [Except.ok.injEq] at ht h; subst ht; subst h
+        refine ⟨by simp, ?_⟩
+        intro ph' t' e1 e2
+        simp only [Option.some.injEq] at e1 e2; subst e1; subst e2; rfl
+
 -- non-vacuity: 23:59:45 under the three rounding modes for Isha and Shurooq
 example : specTime .NormalRounding .Isha 1439 45 = ⟨0, 0, 0⟩ := by decide
 example : specTime .SpecialRounding .Shurooq 1439 45 = ⟨23, 59, 0⟩ := by decide
